@@ -1489,7 +1489,7 @@ def check_C08(replay=None):
         limit = None          # RLIMIT_FSIZE for the command (None = unlimited)
         out_path = None
         if dk.endswith("-fsize"):
-            limit = 8 if dk == "hardlink-fsize" else 0       # (8: the write fails part-way instead of at its first byte)
+            limit = 1 if dk == "hardlink-fsize" else 0       # (1: the write fails part-way - after one byte - instead of at its first byte; every object has >= 4)
         if dk in ("absent-pipegone", "absent-ptygone"):
             return _c08_pipegone(c, dest, base, dk)
         if dk.endswith("-msgfail"):
